@@ -174,7 +174,7 @@ func instreamFineSediment(upstreamMass, lateralMass, reachLocalMass, reachVolume
 func floodPlainDepositionEmperical(outflow, totalDailyConstsituentMass,
 	bankFullFlow, fineSedSettVelocityFlood, floodPlainArea float64) float64 {
 
-	if (outflow < bankFullFlow) || (bankFullFlow==0.0) {
+	if (outflow <= bankFullFlow) || (bankFullFlow==0.0) {
 		return 0.0
 	}
 
